@@ -283,10 +283,13 @@ def replay(chk, scenarios, label, trace_sample=100, extra_env=None, fault_of=Non
         d = runtrace.detect_trace(events)
         if d:
             det_tr[sid] = d
-        if len(sys_tr) < max(20, trace_sample // 3):
+    # every recorded run (not a sample) against the system specification: many runs per TLC process
+    for sid in sids:
+        scn, case, expected, res, events = items[sid][:5]
+        if res["outcome"] in ("ok", "error", "reject"):
             sys_tr[sid] = runtrace.system_trace(events, res, case["args"], False)
     for module, trs in (("TraceRun", run_tr), ("TraceDetect", det_tr), ("TraceSystem", sys_tr)):
-        vres = runtrace.validate_many(module, trs)
+        vres = runtrace.validate_system(trs) if module == "TraceSystem" else runtrace.validate_many(module, trs)
         for sid, (acc, diag, states, rc_) in vres.items():
             chk.traces += 1
             chk.states += states
@@ -298,7 +301,7 @@ def replay(chk, scenarios, label, trace_sample=100, extra_env=None, fault_of=Non
                 chk.violation("%s rejects the recorded run: %s" % (module, (diag or "")[:400]),
                               {"scenario": scn, "concrete": case, "trace": trs[sid],
                                "observed": {k: res.get(k) for k in ("outcome", "exit", "report")}})
-    chk.notes.setdefault("traces", []).append({"label": label, "TraceRun": len(run_tr), "TraceDetect": len(det_tr)})
+    chk.notes.setdefault("traces", []).append({"label": label, "TraceRun": len(run_tr), "TraceDetect": len(det_tr), "TraceSystem": len(sys_tr)})
     if items:
         sid = sorted(items)[len(items) // 2]
         chk.sample({"scenario": items[sid][0], "files": items[sid][1]["files"], "expected": items[sid][2]})
